@@ -222,7 +222,7 @@ class State:
         n.heap = dict(s.heap)
         n.events = s.events
         n.nfid = s.nfid
-        n.aux = {k: (list(v) if isinstance(v, list) else v) for k, v in s.aux.items()}
+        n.aux = {k: (list(v) if isinstance(v, list) else (dict(v) if isinstance(v, dict) else v)) for k, v in s.aux.items()}
         n.depth = s.depth
         n.dead = s.dead
         return n
@@ -275,6 +275,19 @@ class Engine:
         if r == z3.unknown:
             raise Unsupported('solver unknown on feasibility')
         return r == z3.sat
+
+    def concretize(s, term):
+        """the unique value of `term` under the current path condition, or None"""
+        if z3.is_bv_value(term):
+            return term.as_long()
+        if s.solver.check() != z3.sat:
+            return None
+        v = s.solver.model().eval(term, model_completion=True)
+        if not z3.is_bv_value(v):
+            return None
+        if s.feasible(term != v):
+            return None
+        return v.as_long()
 
     def explore(s, st0):
         stack = [(st0, 0)]
@@ -477,6 +490,8 @@ class Engine:
             return FALSE
         if c == 'EMPTY_REF' or c.endswith('::EMPTY_REF') or c == 'u32::MAX' or c.endswith('u32>::MAX'):
             return EMPTY32
+        if c.endswith('usize>::MAX') or c == 'usize::MAX':
+            return bv((1 << 64) - 1, 64)
         if c.endswith('::NIL_INDEX') or c == 'NIL_INDEX':
             f = [fn for n, fn in s.P.fns.items() if n.endswith('NIL_INDEX') and n.split('::')[0] == frame.fn.name.split('::')[0]]
             if len(f) != 1:
@@ -523,6 +538,19 @@ class Engine:
                 fr.bb, fr.ip = stmt[1], 0
             elif stmt[0] == 'nop':
                 pass
+            elif stmt[0] == 'assert':
+                v = s.operand(sub, fr, stmt[2])
+                cond = b_not(s.truth(v)) if stmt[1] else s.truth(v)
+                if not z3.is_true(z3.simplify(cond)):
+                    raise Unsupported('assert in const item does not hold')
+                fr.bb, fr.ip = stmt[4], 0
+            elif stmt[0] == 'call':
+                args = [s.operand(sub, fr, a) for a in stmt[3]]
+                v = s.inst.pure_call(stmt[2], args)
+                if v is NotImplemented:
+                    raise Unsupported(f'const item call {stmt[2]}')
+                s.write(sub, s.resolve(sub, fr, stmt[1]), v)
+                fr.bb, fr.ip = stmt[4], 0
             else:
                 raise Unsupported(f'const item stmt {stmt}')
         v = fr.loc['_0']
